@@ -373,7 +373,9 @@ def lstrip_namespace(s, namespaces):
     :rtype: ```AnyStr```
     """
     for namespace in namespaces:
-        s = s.lstrip(namespace)
+        # `str.lstrip` strips characters, not a prefix: "int".lstrip("typing.") == ""
+        while namespace and s.startswith(namespace):
+            s = s[len(namespace) :]
     return s
 
 
